@@ -470,3 +470,236 @@ def norm_verdict(v):
     if v.startswith("CRASH") or v.startswith("crash"):
         return "crash"
     return v
+
+
+# ---------------------------------------------------------------- C15: histories, reuse, concurrency
+
+def render_conc(xs, pkg):
+    """object-mode file whose epilogue keeps no global parse state (per-context logs), so that
+    concurrent contexts can be run under the race detector"""
+    tags = xs["tags"]
+    out = ["%{\npackage " + pkg + "\nimport \"fmt\"\nimport \"strings\"\nimport \"sync\"\n%}\n", "%union {\n a int\n b int\n}\n"]
+    for t in xs["terms"]:
+        out.append("%%token <%s> %s\n" % (tags[t], t))
+    for n in xs["nts"]:
+        out.append("%%type <%s> %s\n" % (tags[n], n))
+    for kind, syms in xs.get("prec", []):
+        out.append("%%%s %s\n" % (kind, " ".join(syms)))
+    out.append("%%start %s\n%%%%\n" % xs["start"])
+    last = None
+    for i, r in enumerate(xs["rules"]):
+        if r["lhs"] != last:
+            if last is not None:
+                out.append(" ;\n")
+            out.append("%s :" % r["lhs"])
+            last = r["lhs"]
+        else:
+            out.append("\n  |")
+        for s in r["rhs"]:
+            out.append(" " + s)
+        if r.get("prec"):
+            out.append(" %%prec %s" % r["prec"])
+        out.append(" { note(c, %d); $$ = (%s) %% %d }" % (i + 1, _expr(xs, i), MOD))
+    out.append(" ;\n%%\n")
+    out.append("""
+var mu sync.Mutex
+var logs = map[*Context][]int{}
+func note(c *Context, r int) {
+	mu.Lock()
+	logs[c] = append(logs[c], r)
+	n := len(logs[c])
+	mu.Unlock()
+	if n > %d { panic("STEPLIMIT") }
+}
+func take(c *Context) []int { mu.Lock(); l := logs[c]; delete(logs, c); mu.Unlock(); return l }
+var codes = []int{%s}
+func GetToken(input string, valTy *ValType, pos *int) int {
+	if *pos >= len(input) { return -1 }
+	c := int(input[*pos] - 'a')
+	*valTy = ValType{a: *pos + 1, b: 2*(*pos) + 1}
+	*pos++
+	if c < 0 || c >= len(codes) { return 9999 }
+	return codes[c]
+}
+type Res struct { V string; Log []int; Val int }
+func parseOn(c *Context, input string) (res Res) {
+	defer func() {
+		if e := recover(); e != nil {
+			s := fmt.Sprint(e)
+			if strings.HasPrefix(s, "Grammar error") { res.V = "reject" } else if s == "STEPLIMIT" { res.V = "loop" } else { res.V = "CRASH:" + strings.ReplaceAll(s, " ", "_") }
+			res.Log = take(c)
+			if res.V == "loop" { res.Log = nil }
+		}
+	}()
+	v := c.Parser(input)
+	if v == nil { return Res{"nil", take(c), 0} }
+	val := v.%s
+	return Res{"accept", take(c), val}
+}
+func Fresh(input string) Res { return parseOn(MakeParserContext(), input) }
+func Reuse(inputs []string) []Res {
+	c := MakeParserContext()
+	var out []Res
+	for _, in := range inputs { c.ParserInit(); out = append(out, parseOn(c, in)) }
+	return out
+}
+func Conc(inputs []string, rounds int) [][]Res {
+	out := make([][]Res, len(inputs))
+	var wg sync.WaitGroup
+	for i := range inputs {
+		wg.Add(1)
+		go func(i int) {
+			defer wg.Done()
+			c := MakeParserContext()
+			for r := 0; r < rounds; r++ { c.ParserInit(); out[i] = append(out[i], parseOn(c, inputs[i])) }
+		}(i)
+	}
+	wg.Wait()
+	return out
+}
+""" % (STEP_LIMIT, ", ".join(xs["terms"]), tags[xs["start"]]))
+    return "".join(out)
+
+
+def run_c15(xcases, inputs_of, rng, timeout=900):
+    work = common.tmpdir("c15")
+    node = find_node()
+    jobs, meta = [], {}
+    for ci, c in enumerate(xcases):
+        for kind, target, obj in (("h", "go", False), ("c", "go", True), ("ts", "typescript", False)):
+            pkg = "g%d%s" % (ci, kind)
+            if target == "go":
+                d = os.path.join(work, "xp", pkg)
+                os.makedirs(d, exist_ok=True)
+                outp = os.path.join(d, "p.go")
+            else:
+                os.makedirs(os.path.join(work, "ts"), exist_ok=True)
+                outp = os.path.join(work, "ts", pkg + ".ts")
+            if kind == "c":
+                src = render_conc(c["xs"], pkg)
+            else:
+                src = render_x(c["xs"], target, pkg, False, False)
+            jid = "%s|%s" % (c["id"], kind)
+            jobs.append({"id": jid, "src": src, "out": outp, "target": target, "unpack": False, "object": obj})
+            meta[jid] = {"pkg": pkg, "out": outp, "src": src, "kind": kind, "target": target}
+    p = common.sh([os.path.join(common.BIN, "yharness"), "xgen"], inp="".join(json.dumps(j) + "\n" for j in jobs).encode(), timeout=timeout)
+    for line in p.stdout.decode(errors="replace").split("\n"):
+        f = line.split()
+        if len(f) >= 3 and f[0] == "XGEN":
+            meta[f[1]]["gen"] = f[2:]
+    usable = []
+    for c in xcases:
+        if all(meta["%s|%s" % (c["id"], k)].get("gen", ["?"])[0] == "ok" for k in ("h", "c", "ts")):
+            usable.append(c)
+        else:
+            for k in ("h", "c"):
+                shutil.rmtree(os.path.dirname(meta["%s|%s" % (c["id"], k)]["out"]), ignore_errors=True)
+    res = {"usable": usable, "meta": meta, "node": node, "build_error": None, "race": None}
+    imports, cases_go = [], []
+    for c in usable:
+        base = inputs_of(c)
+        hist = list(base)
+        rng.shuffle(hist)
+        hist = hist + hist[: len(hist) // 2]
+        c["base"] = base
+        c["hist"] = hist
+        h = meta["%s|h" % c["id"]]["pkg"]
+        k = meta["%s|c" % c["id"]]["pkg"]
+        imports.append('\t%s "xp/xp/%s"\n\t%s "xp/xp/%s"' % (h, h, k, k))
+        cases_go.append('\t"%s": func(in []string) interface{} { var o []interface{}; for _, x := range in { v, l, val, _ := %s.Run(x); o = append(o, []interface{}{v, l, val}) }; return o },' % (h, h))
+        cases_go.append('\t"%s:F": func(in []string) interface{} { var o []interface{}; for _, x := range in { o = append(o, %s.Fresh(x)) }; return o },' % (k, k))
+        cases_go.append('\t"%s:R": func(in []string) interface{} { return %s.Reuse(in) },' % (k, k))
+        cases_go.append('\t"%s:C": func(in []string) interface{} { return %s.Conc(in, 3) },' % (k, k))
+    open(os.path.join(work, "go.mod"), "w").write("module xp\n\ngo 1.18\n")
+    os.makedirs(os.path.join(work, "runner"), exist_ok=True)
+    open(os.path.join(work, "runner", "main.go"), "w").write("""package main
+import (
+	"bufio"
+	"encoding/json"
+	"fmt"
+	"os"
+%s
+)
+var tab = map[string]func([]string) interface{}{
+%s
+}
+type Req struct { Key string; In []string }
+func main() {
+	sc := bufio.NewScanner(os.Stdin)
+	sc.Buffer(make([]byte, 1<<20), 1<<24)
+	for sc.Scan() {
+		var r Req
+		json.Unmarshal(sc.Bytes(), &r)
+		out, _ := json.Marshal(map[string]interface{}{"key": r.Key, "out": tab[r.Key](r.In)})
+		fmt.Println(string(out))
+	}
+}
+""" % ("\n".join(imports), "\n".join(cases_go)))
+    out = {}
+    if usable:
+        b = common.sh(["go", "build", "-race", "-o", os.path.join(work, "runner.bin"), "./runner"], cwd=work, env=common.GOENV, timeout=timeout)
+        res["race_build"] = True
+        if b.returncode != 0:
+            # the race detector may be unavailable: fall back to a plain build and say so
+            res["race_build"] = False
+            b = common.sh(["go", "build", "-o", os.path.join(work, "runner.bin"), "./runner"], cwd=work, env=common.GOENV, timeout=timeout)
+        if b.returncode != 0:
+            res["build_error"] = b.stderr.decode(errors="replace")
+        else:
+            lines = []
+            for c in usable:
+                h = meta["%s|h" % c["id"]]["pkg"]
+                k = meta["%s|c" % c["id"]]["pkg"]
+                nonloop = c["base"]
+                lines.append(json.dumps({"Key": h, "In": c["hist"]}))
+                lines.append(json.dumps({"Key": k + ":F", "In": c["base"]}))
+                lines.append(json.dumps({"Key": k + ":R", "In": c["hist"]}))
+                lines.append(json.dumps({"Key": k + ":C", "In": nonloop[:16]}))
+            r = common.sh([os.path.join(work, "runner.bin")], inp=("\n".join(lines) + "\n").encode(), timeout=timeout)
+            err = r.stderr.decode(errors="replace")
+            if "DATA RACE" in err:
+                res["race"] = err[:3000]
+            res["runner_rc"] = r.returncode
+            for line in r.stdout.decode(errors="replace").split("\n"):
+                if line.startswith("{"):
+                    try:
+                        d = json.loads(line)
+                        out[d["key"]] = d["out"]
+                    except Exception:
+                        pass
+    res["out"] = out
+    # TypeScript: the history (shuffled, with repeats) in one process
+    tsruns = {}
+    if node:
+        procs = []
+        for c in usable:
+            m = meta["%s|ts" % c["id"]]
+            inf = m["out"] + ".inputs.json"
+            json.dump(c["hist"], open(inf, "w"))
+            p2 = subprocess.run([node, "--experimental-strip-types", "--no-warnings", m["out"], inf], stdout=subprocess.PIPE, stderr=subprocess.PIPE, timeout=300)
+            rs = []
+            for line in p2.stdout.decode(errors="replace").split("\n"):
+                m2 = re.match(r'END ts "([^"]*)" (\S+) \[([^\]]*)\] (-?\d+) (\d+)', line)
+                if m2:
+                    rs.append((m2.group(1), m2.group(2), _ints(m2.group(3)), int(m2.group(4))))
+            tsruns[c["id"]] = rs
+    res["tsruns"] = tsruns
+    # the model: a pure function of the input (scraped table of the global variant)
+    blocks = []
+    for c in usable:
+        m = meta["%s|h" % c["id"]]
+        sc = scrape(m["out"], "go")
+        blocks.extend(model_block(c["id"], c["xs"], sc, c["base"], False))
+    mo = common.sh([common.YMODEL], inp=("\n".join(blocks) + "\n").encode(), timeout=timeout)
+    mruns = {}
+    cur = None
+    for line in mo.stdout.decode(errors="replace").split("\n"):
+        f = line.split()
+        if not f:
+            continue
+        if f[0] == "XCASE":
+            cur = f[1]
+        elif f[0] == "XR":
+            mruns[(cur, int(f[1]))] = (norm_verdict(f[2]), [int(x) for x in f[5:]], int(f[4]))
+    res["mruns"] = mruns
+    return res
